@@ -15,6 +15,10 @@ Definition atan2 (y x : R) : R :=
   else if Rlt_dec y 0 then - PI / 2
   else 0.
 
+(* nearest integer, ties away from zero *)
+Definition Rrint (x : R) : R :=
+  if Rle_dec 0 x then IZR (Int_part (x + / 2)) else - IZR (Int_part (- x + / 2)).
+
 (* the physical constants h and m_n are parameters: every theorem is stated
    for arbitrary positive values of them *)
 (* Equality of unit MULTIPLIERS (same dimensions) is not decided in the R
@@ -28,7 +32,7 @@ Definition atan2 (y x : R) : R :=
    (Deciding it with Req_EM_T leaves stuck `if`s that make cbv blow up.) *)
 Definition ROps (h mn : R) : Fops :=
   mkFops R Rplus Rminus Rmult Rdiv Ropp IZR sqrt sin cos atan2 asin exp Rabs PI
-         Rleb Rltb Reqb (fun _ _ => true) h mn.
+         Rleb Rltb Reqb (fun _ _ => true) h mn Rrint.
 
 Lemma Rleb_true a b : a <= b -> Rleb a b = true.
 Proof. unfold Rleb; destruct (Rle_dec a b); tauto. Qed.
